@@ -181,6 +181,7 @@ def gen_pf(ctx, nrand, nmax):
                 g = r.choice([1, 2, 3, 5, 100])
                 cases.append(pf_case(r, "flsg", "i", first, first + d, step, g))
                 cases.append(pf_case(r, "flsg", "i", first, first + d, step, 1))
+                cases.append(pf_case(r, "flsg", "i", first, first + d, step, r.choice([0, 0, -1, -3])))
     for _ in range(nrand):
         ty = r.choice("il")
         form = r.choice(["fl", "fls", "fls", "flsg", "rng"])
@@ -210,6 +211,8 @@ def gen_pf(ctx, nrand, nmax):
             last = first + r.rng(0, 3) * step + r.rng(0, 2)
         first, last = max(lo, min(hi, first)), max(lo, min(hi, last))
         grain = r.choice([1, 1, 2, 3, 8, r.rng(1, 64), 1 << 20]) if form in ("flsg", "rng") else 0
+        if form == "flsg" and r.chance(1, 4):      # grain sizes below one act as one
+            grain = r.choice([0, 0, -1, -3, -(1 << 31), r.rng(-64, 0)])
         cases.append(pf_case(r, form, ty, first, last, step, grain))
     return cases
 
@@ -238,7 +241,7 @@ def pf_guard(case):
     if form == "fls" or not g:
         return g
     n = tquot(last - first + step - 1, step)
-    return ok(grain) and grain >= 1 and ok(n * step) and ok(first + n * step)
+    return ok(grain) and ok(n * step) and ok(first + n * step)      # every grain size, also <= 0
 
 
 def pf_small(case):
@@ -546,7 +549,7 @@ def run(ctx):
                       {"theorem_or_correspondence": ", ".join(broken), "log": getattr(ctx, "proof_log", log[-3000:])}, found=False)
     return ctx.finish(assumptions=[
         "n >= 0 (a negative count never terminates: C17_various_negative_diverges); arrays inside the address space (no wrap of base + i*stride)",
-        "parallel_for: step >= 1 and the intermediate values of (last - first + step - 1) / step representable in Index (pf3_guard); grain size >= 1 (C17_parfor_grain0_diverges shows grain <= 0 never terminates)",
+        "parallel_for: step >= 1 and the intermediate values of (last - first + step - 1) / step representable in Index (pf3_guard); the grain-size overload for every representable grain size (<= 0 included); the range-based form for a Range whose is_divisible() is false on one-element ranges (grainsize >= 1 for the blocked_range-like Rng)",
         "create/join semantics of C01: a joined thread has run to completion"])
 
 
